@@ -97,7 +97,9 @@ def work(ident, prop, tier, tree):
             # the function (as it is now) is outside the verifier's reach - or crashed it: the native driver may still find a failing input
             bd = k.bounded_driver
             rp = run_replay(bd, tree)
-            bounded = {"instances": 1, "undecided": 0, "bound": f"native driver {bd['driver']} (seeded random search)",
+            ran = rp.get("reproduced") is not None          # None: the driver itself failed - nothing was explored
+            bounded = {"instances": 1 if ran else 0, "undecided": 0 if ran else 1, "detail": rp.get("detail", "")[:300],
+                       "bound": f"native driver {bd['driver']} (seeded random search on the real code)",
                        "violations": [{"kwargs": bd, "detail": rp.get("detail", "")}] if rp.get("reproduced") else []}
         elif res.error and res.error.startswith("unsupported") and k.generic_replay:
             # the function (as it is now) is outside the verifier's reach: bounded stand-in, never counted as proof
@@ -291,7 +293,11 @@ def main(argv=None):
     # ---- classify ----------------------------------------------------------------------
     findings = [f for f in load_findings() if f.get("property") == prop]
     open_f = [f for f in findings if f.get("status") == "open"]
-    errors = [r for r in results if r["error"]]
+    # a contract whose function is outside the verifier's reach (unsupported construct, engine crash) but whose native
+    # stand-in ran and found nothing is a BOUNDED result for that contract: reported as such, not as a checker error
+    fell_back = [r for r in results if r["error"] and r.get("bounded") and r["bounded"].get("instances", 0) > 0 and not r["bounded"]["violations"]
+                 and not r["error"].startswith("crash: bounded driver failed")]
+    errors = [r for r in results if r["error"] and r not in fell_back]
     all_obl = [(r, o) for r in results for o in r["obligations"]]
     n_total = len(all_obl)
     refuted = [(r, o) for r, o in all_obl if o["status"] == "refuted"]
@@ -300,7 +306,7 @@ def main(argv=None):
     for r, o in refuted:
         m = [f for f in open_f if f["obligation"] == o["id"]]
         (known if m else viol).append((r, o, m[0] if m else None))
-    canary_bad = [(r, cn) for r in results for cn in r["canaries"] if cn["refuted"] == 0]
+    canary_bad = [(r, cn) for r in results for cn in r["canaries"] if cn["refuted"] == 0 and r not in fell_back]
     lines = []
     seen_known = set()
     for r, o, f in known:
@@ -355,6 +361,8 @@ def main(argv=None):
         print(ln)
     for ln in viol_lines:
         print(ln)
+    for r in fell_back:
+        print(f"BOUNDED-FALLBACK {r['ident']}: not decided deductively ({r['error'][:160]}); native stand-in found no failing input: {r['bounded'].get('bound', '')[:160]}")
     for r in errors:
         print(f"CHECKER-ERROR {r['ident']}: {r['error'][:1500]}")
     for r, o in unknown:
